@@ -378,3 +378,367 @@ Proof.
   - destruct (H1 j' Hj') as [_ Hs]. destruct (H2 j Hj) as [Hle _]. specialize (Hs Hlt). lra.
   - destruct (H2 j Hj) as [_ Hs]. destruct (H1 j' Hj') as [Hle _]. specialize (Hs Hgt). lra.
 Qed.
+
+(* ------------------------------------------------------------------ *)
+(* the corner sum is a tensor product of the per-axis blends            *)
+Lemma sumf_scale_corners (v : list Z -> R) e w (l : list (list Z * R)) :
+  sumf (map (fun iw : list Z * R => v (e :: fst iw) * (w * snd iw)) l) =
+  w * sumf (map (fun iw : list Z * R => v (e :: fst iw) * snd iw) l).
+Proof.
+  induction l as [|p l IH]; cbn [map sumf]; numR; [lra|]. rewrite IH. numR. lra.
+Qed.
+
+Lemma corner_sum_nil (v : list Z -> R) : corner_sum v [] = v [].
+Proof. unfold corner_sum. cbn. numR. lra. Qed.
+
+Lemma corner_sum_cons (v : list Z -> R) a r :
+  corner_sum v (a :: r) =
+  w_lo a * corner_sum (fun ix => v (e_lo a :: ix)) r + w_hi a * corner_sum (fun ix => v (e_hi a :: ix)) r.
+Proof.
+  unfold corner_sum. cbn [corners]. rewrite map_app, sumf_app, !map_map. cbn [fst snd]. numR.
+  rewrite !sumf_scale_corners. reflexivity.
+Qed.
+
+Lemma corner_sum_wrapped_cons n sh (G : list nat -> R) a r :
+  corner_sum (wrapped (n :: sh) G) (a :: r) =
+  blend n a (fun j => corner_sum (wrapped sh (fun js => G (j :: js))) r).
+Proof. rewrite corner_sum_cons. reflexivity. Qed.
+
+(* axes as triples (scheme, coordinate vector, evaluation coordinate) *)
+Definition axis := (scheme * list R * R)%type.
+Definition a_s (t : axis) : scheme := fst (fst t).
+Definition a_c (t : axis) : list R := snd (fst t).
+Definition a_x (t : axis) : R := snd t.
+Definition axd_of (t : axis) : axdat R := axis_data (a_s t) (a_c t) (a_x t).
+Definition shape_of (axes : list axis) : list nat := map (fun t => length (a_c t)) axes.
+
+Lemma map3_maps {A B C D E} (f : B -> C -> D -> E) (g1 : A -> B) (g2 : A -> C) (g3 : A -> D) (l : list A) :
+  map3 f (map g1 l) (map g2 l) (map g3 l) = map (fun a => f (g1 a) (g2 a) (g3 a)) l.
+Proof. induction l as [|a l IH]; cbn; [reflexivity | now rewrite IH]. Qed.
+Lemma map2_maps {A B C E} (f : B -> C -> E) (g1 : A -> B) (g2 : A -> C) (l : list A) :
+  map2 f (map g1 l) (map g2 l) = map (fun a => f (g1 a) (g2 a)) l.
+Proof. induction l as [|a l IH]; cbn; [reflexivity | now rewrite IH]. Qed.
+
+Lemma peraxis_point_axes (axes : list axis) (v : list Z -> R) :
+  peraxis_point (map a_s axes) (map a_c axes) v (map a_x axes) = corner_sum v (map axd_of axes).
+Proof. unfold peraxis_point. rewrite map3_maps. reflexivity. Qed.
+
+(* the recursive (tensor-product) reading of the corner sum *)
+Fixpoint tensor_eval (axes : list axis) (G : list nat -> R) : R :=
+  match axes with
+  | [] => G []
+  | t :: r => blend (length (a_c t)) (axd_of t) (fun j => tensor_eval r (fun js => G (j :: js)))
+  end.
+
+Lemma blend_ext n a (G G' : nat -> R) : (forall j, G j = G' j) -> blend n a G = blend n a G'.
+Proof. intros He. unfold blend. now rewrite !He. Qed.
+
+Lemma corner_sum_tensor (axes : list axis) (G : list nat -> R) :
+  corner_sum (wrapped (shape_of axes) G) (map axd_of axes) = tensor_eval axes G.
+Proof.
+  revert G; induction axes as [|t r IH]; intros G.
+  - cbn [shape_of map tensor_eval]. rewrite corner_sum_nil. reflexivity.
+  - cbn [shape_of map tensor_eval]. rewrite corner_sum_wrapped_cons.
+    apply blend_ext. intros j. apply IH.
+Qed.
+
+Lemma peraxis_tensor (axes : list axis) (G : list nat -> R) :
+  peraxis_point (map a_s axes) (map a_c axes) (wrapped (shape_of axes) G) (map a_x axes) = tensor_eval axes G.
+Proof. rewrite peraxis_point_axes. apply corner_sum_tensor. Qed.
+
+(* linear in the values (so real and imaginary parts are interpolated separately) *)
+Lemma tensor_eval_linear (axes : list axis) (G H : list nat -> R) a b :
+  tensor_eval axes (fun js => a * G js + b * H js) = a * tensor_eval axes G + b * tensor_eval axes H.
+Proof.
+  revert G H; induction axes as [|t r IH]; intros G H; cbn [tensor_eval]; [reflexivity|].
+  unfold blend. rewrite !IH. lra.
+Qed.
+
+Lemma tensor_eval_ext (axes : list axis) (G H : list nat -> R) :
+  (forall js, G js = H js) -> tensor_eval axes G = tensor_eval axes H.
+Proof.
+  revert G H; induction axes as [|t r IH]; intros G H He; cbn [tensor_eval]; [apply He|].
+  apply blend_ext. intros j. apply IH. intros js. apply He.
+Qed.
+
+(* ------------------------------------------------------------------ *)
+(* admissible axes                                                     *)
+Definition good_axis (s : scheme) (c : list R) : Prop :=
+  Asc c /\ ((2 <= length c)%nat \/ (s = SNearest /\ length c = 1%nat)).
+
+Lemma nearest_nat_node (c : list R) j : Asc c -> (j < length c)%nat -> nearest_nat c (nth j c 0) = j.
+Proof.
+  intros Ha Hj. apply closest_unique with c (nth j c 0).
+  - apply nearest_closest; [exact Ha | lia].
+  - split; [exact Hj|]. intros m Hm. replace (nth j c 0 - nth j c 0) with 0 by lra. rewrite Rabs_R0.
+    split; [apply Rabs_pos|]. intros Hjm. apply Rabs_pos_lt. pose proof (Ha j m Hjm Hm). lra.
+Qed.
+
+(* node reproduction on one axis, both schemes *)
+Lemma blend_node s (c : list R) j (G : nat -> R) : good_axis s c -> (j < length c)%nat ->
+  blend (length c) (axis_data s c (nth j c 0)) G = G j.
+Proof.
+  intros [Ha Hlen] Hj. destruct s.
+  - rewrite blend_nearest by (assumption || lia). now rewrite nearest_nat_node.
+  - destruct Hlen as [Hn|[Hs _]]; [|discriminate].
+    destruct (Nat.eq_dec (S j) (length c)) as [Hlast|Hnl].
+    + (* last node: cell [c_{j-1}, c_j], t = 1 *)
+      destruct j as [|j']; [lia|].
+      pose proof (Ha j' (S j') ltac:(lia) Hj) as Hlt.
+      rewrite (blend_linear_in c (nth (S j') c 0) G j' Ha Hj) by lra.
+      replace ((nth (S j') c 0 - nth j' c 0) / (nth (S j') c 0 - nth j' c 0)) with 1 by (field; lra). lra.
+    + pose proof (Ha j (S j) ltac:(lia) ltac:(lia)) as Hlt.
+      rewrite (blend_linear_in c (nth j c 0) G j Ha ltac:(lia)) by lra.
+      replace ((nth j c 0 - nth j c 0) / (nth (S j) c 0 - nth j c 0)) with 0 by (field; lra). lra.
+Qed.
+
+(* ------------------------------------------------------------------ *)
+(* d dimensions: node reproduction, any per-axis mix                    *)
+Definition naxis := (scheme * list R * nat)%type.
+Definition n_j (t : naxis) : nat := snd t.
+Definition at_node (t : naxis) : axis := (fst (fst t), snd (fst t), nth (snd t) (snd (fst t)) 0).
+Definition node_ok (t : naxis) : Prop := good_axis (fst (fst t)) (snd (fst t)) /\ (snd t < length (snd (fst t)))%nat.
+
+Lemma tensor_eval_node (naxes : list naxis) (G : list nat -> R) :
+  Forall node_ok naxes -> tensor_eval (map at_node naxes) G = G (map n_j naxes).
+Proof.
+  revert G; induction naxes as [|[[s c] j] r IH]; intros G Hok; [reflexivity|].
+  inversion Hok as [|? ? [Hg Hj] Hr]; subst. cbn [map tensor_eval].
+  unfold axd_of, a_s, a_c, a_x, at_node at 1 2 3 4. cbn [fst snd] in *.
+  rewrite (blend_ext _ _ _ (fun j' => G (j' :: map n_j r))) by (intros j'; apply IH; exact Hr).
+  rewrite blend_node by assumption. reflexivity.
+Qed.
+
+(* ------------------------------------------------------------------ *)
+(* d dimensions: all axes nearest                                      *)
+Definition nearest_ok (t : axis) : Prop := a_s t = SNearest /\ Asc (a_c t) /\ (1 <= length (a_c t))%nat.
+Definition nearest_js (axes : list axis) : list nat := map (fun t => nearest_nat (a_c t) (a_x t)) axes.
+
+Lemma tensor_eval_nearest (axes : list axis) (G : list nat -> R) :
+  Forall nearest_ok axes -> tensor_eval axes G = G (nearest_js axes).
+Proof.
+  revert G; induction axes as [|t r IH]; intros G Hok; [reflexivity|].
+  inversion Hok as [|? ? (Hs & Ha & Hn) Hr]; subst. cbn [tensor_eval nearest_js map].
+  rewrite (blend_ext _ _ _ (fun j' => G (j' :: nearest_js r))) by (intros j'; apply IH; exact Hr).
+  unfold axd_of. rewrite Hs. rewrite blend_nearest by assumption. reflexivity.
+Qed.
+
+Lemma nearest_point_axes (axes : list axis) (G : list nat -> R) :
+  Forall nearest_ok axes ->
+  nearest_point (map a_c axes) (wrapped (shape_of axes) G) (map a_x axes) = G (nearest_js axes).
+Proof.
+  intros Hok. unfold nearest_point, wrapped. f_equal. rewrite map2_maps. unfold shape_of, nearest_js.
+  induction axes as [|t r IH]; [reflexivity|].
+  inversion Hok as [|? ? (Hs & Ha & Hn) Hr]; subst. cbn [map map2].
+  rewrite nearest_index_nat by exact Hn. rewrite wrap_nat. f_equal. apply IH. exact Hr.
+Qed.
+
+(* ------------------------------------------------------------------ *)
+(* d dimensions: the multilinear / mixed blend inside the hull           *)
+Definition lin_t (t : axis) (i : nat) : R :=
+  (a_x t - nth i (a_c t) 0) / (nth (S i) (a_c t) 0 - nth i (a_c t) 0).
+
+Fixpoint mblend (ca : list (axis * nat)) (G : list nat -> R) : R :=
+  match ca with
+  | [] => G []
+  | (t, i) :: r =>
+      match a_s t with
+      | SLinear => (1 - lin_t t i) * mblend r (fun js => G (i :: js)) + lin_t t i * mblend r (fun js => G (S i :: js))
+      | SNearest => mblend r (fun js => G (nearest_nat (a_c t) (a_x t) :: js))
+      end
+  end.
+
+Definition cell_ok (ti : axis * nat) : Prop :=
+  let t := fst ti in let i := snd ti in
+  Asc (a_c t) /\
+  match a_s t with
+  | SLinear => (S i < length (a_c t))%nat /\ nth i (a_c t) 0 <= a_x t <= nth (S i) (a_c t) 0
+  | SNearest => (1 <= length (a_c t))%nat
+  end.
+
+Lemma tensor_eval_mblend (ca : list (axis * nat)) (G : list nat -> R) :
+  Forall cell_ok ca -> tensor_eval (map fst ca) G = mblend ca G.
+Proof.
+  revert G; induction ca as [|[t i] r IH]; intros G Hok; [reflexivity|].
+  inversion Hok as [|? ? [Ha Hc] Hr]; subst. cbn [fst snd] in Ha, Hc.
+  cbn [map fst tensor_eval mblend]. unfold axd_of.
+  destruct (a_s t) eqn:Es.
+  - rewrite blend_nearest by assumption. apply IH. exact Hr.
+  - destruct Hc as [Hi Hx]. rewrite (blend_linear_in _ _ _ i Ha Hi Hx). unfold lin_t.
+    rewrite !IH by exact Hr. reflexivity.
+Qed.
+
+(* ------------------------------------------------------------------ *)
+(* which nodes an axis reads: always inside the array                    *)
+Lemma axis_reads_in_range s (c : list R) x : Asc c -> (1 <= length c)%nat ->
+  (wrap (length c) (e_lo (axis_data s c x)) < length c)%nat /\
+  (wrap (length c) (e_hi (axis_data s c x)) < length c)%nat.
+Proof.
+  intros Ha Hn. destruct (Nat.eq_dec (length c) 1) as [H1|H1].
+  - destruct c as [|a [|b c]]; cbn in H1; try lia. cbn. lia.
+  - assert (Hn2 : (2 <= length c)%nat) by lia.
+    destruct (regime c x Ha Hn2) as (Hi' & _ & _ & Hreg).
+    rewrite (axis_data_ge2 _ _ _ Hn2), (cell_index_nat c x Hn2).
+    set (k := cellnat c x) in *. set (y := norm_dist c x) in *.
+    destruct Hreg as [(_ & _ & Hy0) | [(_ & _ & Hy01 & _) | (_ & _ & Hy1)]].
+    + rewrite (we_lo s _ y Hy0). cbn [e_lo e_hi]. rewrite wrap_nat, wrap_0. lia.
+    + rewrite (we_in s _ y Hy01). destruct s; cbn [e_lo e_hi]; rewrite wrap_nat, wrap_nat1; lia.
+    + rewrite (we_hi s _ y Hy1). cbn [e_lo e_hi]. rewrite wrap_m1, wrap_nat1 by lia. lia.
+Qed.
+
+Lemma blend_ext_range s (c : list R) x (G G' : nat -> R) : Asc c -> (1 <= length c)%nat ->
+  (forall j, (j < length c)%nat -> G j = G' j) ->
+  blend (length c) (axis_data s c x) G = blend (length c) (axis_data s c x) G'.
+Proof.
+  intros Ha Hn He. destruct (axis_reads_in_range s c x Ha Hn) as [H1 H2].
+  unfold blend. now rewrite (He _ H1), (He _ H2).
+Qed.
+
+(* ------------------------------------------------------------------ *)
+(* d dimensions: constants (any mix) and affine functions (all linear)    *)
+Definition hull_ok (t : axis) : Prop :=
+  Asc (a_c t) /\ (2 <= length (a_c t))%nat /\ nth 0 (a_c t) 0 <= a_x t <= nth (length (a_c t) - 1) (a_c t) 0.
+
+Definition in_range (axes : list axis) (js : list nat) : Prop :=
+  Forall2 (fun t j => (j < length (a_c t))%nat) axes js.
+
+Lemma blend_const s (c : list R) x k : Asc c -> (2 <= length c)%nat ->
+  nth 0 c 0 <= x <= nth (length c - 1) c 0 -> blend (length c) (axis_data s c x) (fun _ => k) = k.
+Proof.
+  intros Ha Hn Hx. destruct (weights_in_hull s c x Ha Hn Hx) as (Hsum & _). unfold blend.
+  rewrite <- Rmult_plus_distr_r, Hsum. lra.
+Qed.
+
+Lemma tensor_eval_const (axes : list axis) (G : list nat -> R) k :
+  Forall hull_ok axes -> (forall js, in_range axes js -> G js = k) -> tensor_eval axes G = k.
+Proof.
+  revert G; induction axes as [|t r IH]; intros G Hok HG.
+  - cbn. apply HG. constructor.
+  - inversion Hok as [|? ? (Ha & Hn & Hx) Hr]; subst. cbn [tensor_eval]. unfold axd_of.
+    rewrite (blend_ext_range _ _ _ _ (fun _ => k) Ha ltac:(lia)).
+    + apply blend_const; assumption.
+    + intros j Hj. apply IH; [exact Hr|]. intros js Hjs. apply HG. constructor; assumption.
+Qed.
+
+Fixpoint lincomb (al p : list R) : R :=
+  match al, p with a :: al', x :: p' => a * x + lincomb al' p' | _, _ => 0 end.
+Definition nodes_at (axes : list axis) (js : list nat) : list R :=
+  map2 (fun t j => nth j (a_c t) 0) axes js.
+
+Lemma blend_affine (c : list R) x k a : Asc c -> (2 <= length c)%nat ->
+  nth 0 c 0 <= x <= nth (length c - 1) c 0 ->
+  blend (length c) (axis_data SLinear c x) (fun j => k + a * nth j c 0) = k + a * x.
+Proof.
+  intros Ha Hn Hx. destruct (weights_in_hull SLinear c x Ha Hn Hx) as (Hsum & _ & _ & Hprec).
+  specialize (Hprec eq_refl). unfold blend.
+  set (wl := w_lo _) in *. set (wh := w_hi _) in *.
+  set (cl := nth (wrap _ (e_lo _)) c 0) in *. set (ch := nth (wrap _ (e_hi _)) c 0) in *.
+  replace (wl * (k + a * cl) + wh * (k + a * ch)) with ((wl + wh) * k + a * (wl * cl + wh * ch)) by ring.
+  rewrite Hsum, Hprec. ring.
+Qed.
+
+Lemma tensor_eval_affine (axes : list axis) (G : list nat -> R) a0 al :
+  Forall hull_ok axes -> Forall (fun t => a_s t = SLinear) axes ->
+  (forall js, in_range axes js -> G js = a0 + lincomb al (nodes_at axes js)) ->
+  tensor_eval axes G = a0 + lincomb al (map a_x axes).
+Proof.
+  revert G a0 al; induction axes as [|t r IH]; intros G a0 al Hok Hlin HG.
+  - cbn [tensor_eval]. rewrite HG by constructor. destruct al; reflexivity.
+  - inversion Hok as [|? ? (Ha & Hn & Hx) Hr]; subst. inversion Hlin as [|? ? Hs Hlr]; subst.
+    cbn [tensor_eval]. unfold axd_of. rewrite Hs.
+    destruct al as [|a al].
+    + rewrite (blend_ext_range _ _ _ _ (fun _ => a0) Ha ltac:(lia)).
+      * rewrite blend_const by assumption. cbn. lra.
+      * intros j Hj. rewrite (IH _ a0 []); [cbn; lra | exact Hr | exact Hlr |].
+        intros js Hjs. rewrite HG by (constructor; assumption). reflexivity.
+    + rewrite (blend_ext_range _ _ _ _ (fun j => (a0 + lincomb al (map a_x r)) + a * nth j (a_c t) 0) Ha ltac:(lia)).
+      * rewrite blend_affine by assumption. cbn [map lincomb]. lra.
+      * intros j Hj. rewrite (IH _ (a0 + a * nth j (a_c t) 0) al); [lra | exact Hr | exact Hlr |].
+        intros js Hjs. rewrite HG by (constructor; assumption). cbn [nodes_at map2 lincomb]. fold (nodes_at r js). lra.
+Qed.
+
+(* ------------------------------------------------------------------ *)
+(* calling conventions: a mesh grid gives the point-wise results in C order *)
+Definition maxis := (scheme * list R * list R)%type.
+Definition m_s (t : maxis) : scheme := fst (fst t).
+Definition m_c (t : maxis) : list R := snd (fst t).
+Definition m_xs (t : maxis) : list R := snd t.
+
+Lemma cart_axis_data (l : list maxis) :
+  cart (map (fun t => map (axis_data (m_s t) (m_c t)) (m_xs t)) l) =
+  map (map3 axis_data (map m_s l) (map m_c l)) (cart (map m_xs l)).
+Proof.
+  induction l as [|t r IH]; [reflexivity|].
+  cbn [map cart]. rewrite IH. clear IH.
+  induction (m_xs t) as [|x xs IHx]; [reflexivity|].
+  cbn [map flat_map]. rewrite map_app, IHx. f_equal. rewrite !map_map. reflexivity.
+Qed.
+
+Lemma peraxis_mesh_pointwise (l : list maxis) (v : list Z -> R) :
+  peraxis_mesh (map m_s l) (map m_c l) v (map m_xs l) =
+  map (peraxis_point (map m_s l) (map m_c l) v) (cart (map m_xs l)).
+Proof.
+  unfold peraxis_mesh. rewrite map3_maps, cart_axis_data, map_map. reflexivity.
+Qed.
+
+Lemma cart_nearest_index (l : list maxis) :
+  cart (map (fun t => map (nearest_index (m_c t)) (m_xs t)) l) =
+  map (map2 nearest_index (map m_c l)) (cart (map m_xs l)).
+Proof.
+  induction l as [|t r IH]; [reflexivity|].
+  cbn [map cart]. rewrite IH. clear IH.
+  induction (m_xs t) as [|x xs IHx]; [reflexivity|].
+  cbn [map flat_map]. rewrite map_app, IHx. f_equal. rewrite !map_map. reflexivity.
+Qed.
+
+Lemma nearest_mesh_pointwise (l : list maxis) (v : list Z -> R) :
+  nearest_mesh (map m_c l) v (map m_xs l) = map (nearest_point (map m_c l) v) (cart (map m_xs l)).
+Proof.
+  unfold nearest_mesh. rewrite map2_maps, cart_nearest_index, map_map. reflexivity.
+Qed.
+
+(* ------------------------------------------------------------------ *)
+(* sampling: entry (j_1..j_d) of the collocated array is f at node (c_1[j_1], .., c_d[j_d]) *)
+Lemma cart_length {A} (cvs : list (list A)) : length (cart cvs) = prodn (map (@length A) cvs).
+Proof.
+  induction cvs as [|c r IH]; [reflexivity|]. cbn [cart map prodn fold_right].
+  fold (prodn (map (@length A) r)). rewrite <- IH. clear IH.
+  induction c as [|a c IHc]; [reflexivity|]. cbn [flat_map length]. rewrite app_length, map_length, IHc. reflexivity.
+Qed.
+
+Lemma nth_flat_map_blocks {A B} (g : A -> list B) (c : list A) P j k (dA : A) (dB : B) :
+  (forall a, length (g a) = P) -> (j < length c)%nat -> (k < P)%nat ->
+  nth (j * P + k) (flat_map g c) dB = nth k (g (nth j c dA)) dB.
+Proof.
+  intros HP. revert j; induction c as [|a c IH]; intros j Hj Hk; [cbn in Hj; lia|].
+  cbn [flat_map]. destruct j as [|j].
+  - cbn [Nat.mul Nat.add nth]. rewrite app_nth1 by (rewrite HP; exact Hk). reflexivity.
+  - rewrite app_nth2 by (rewrite HP; nia). rewrite HP.
+    replace (S j * P + k - P)%nat with (j * P + k)%nat by nia.
+    cbn [nth]. apply IH; [cbn in Hj; lia | exact Hk].
+Qed.
+
+Definition node_at (cvs : list (list R)) (js : list nat) : list R := map2 (fun c j => nth j c 0) cvs js.
+
+Lemma nat_index_cart (cvs : list (list R)) (js : list nat) :
+  Forall2 (fun c j => (j < length c)%nat) cvs js ->
+  (nat_index (map (@length R) cvs) js < prodn (map (@length R) cvs))%nat /\
+  nth (nat_index (map (@length R) cvs) js) (cart cvs) [] = node_at cvs js.
+Proof.
+  intros HF. induction HF as [|c j cvs js Hj HF [IHlt IHnth]].
+  - cbn. split; [lia | reflexivity].
+  - cbn [map nat_index prodn fold_right cart node_at map2]. fold (prodn (map (@length R) cvs)).
+    set (P := prodn (map (@length R) cvs)) in *. split; [nia|].
+    rewrite (nth_flat_map_blocks _ c P j _ 0 []); [| intros a; rewrite map_length; apply cart_length | exact Hj | exact IHlt].
+    rewrite (nth_indep _ [] (nth j c 0 :: [])) by (rewrite map_length, cart_length; exact IHlt).
+    change (nth j c 0 :: []) with (cons (nth j c 0) []). rewrite map_nth. rewrite IHnth. reflexivity.
+Qed.
+
+Lemma collocate_nth (f : list R -> R) (cvs : list (list R)) (js : list nat) :
+  Forall2 (fun c j => (j < length c)%nat) cvs js ->
+  nth (nat_index (map (@length R) cvs) js) (collocate f cvs) 0 = f (node_at cvs js).
+Proof.
+  intros HF. destruct (nat_index_cart cvs js HF) as [Hlt Hnth]. unfold collocate.
+  rewrite (nth_indep _ 0 (f [])) by (rewrite map_length, cart_length; exact Hlt).
+  rewrite map_nth, Hnth. reflexivity.
+Qed.
